@@ -34,7 +34,7 @@ def main():
             'evidence_file': 'evidence/%s.json' % pid,
             'replay_cmd_template': './check %s --replay {path}' % pid,
             'engine': '+'.join(pl['engines']),
-            'level_claimed': {'category': 'proof', 'text': pl.get('level_text', ''), 'design_ref': pl.get('design_ref', 'DESIGN.md section 4')},
+            'level_claimed': {'category': pl.get('level', 'proof'), 'text': pl.get('level_text', ''), 'design_ref': pl.get('design_ref', 'DESIGN.md section 4')},
             'level_note': pl.get('level_note', ''),
             'technique': pl.get('technique', 'contract-based deductive verification'),
         })
